@@ -134,13 +134,15 @@ pub fn c05_step(po: &HubObs, a: &Action, out: &Outcome, qo: &HubObs, cx: &mut Cx
         let tok = a.exec_parts().unwrap().1;
         if hookname == "unbond" && tok == BSEI {
             path = "unbond";
-            let credited: u128 = fx_attr(out.fx(), HUB, "unbonded_amount").and_then(|s| s.parse().ok()).unwrap_or(0);
-            // cross-check the attribute with the recorded claim
+            // what the user was credited is read from its public claim list
             let id = po.batch.id;
             let before = po.requests.get(&u).and_then(|r| r.iter().find(|x| x.0 == id)).map(|x| x.1).unwrap_or(0);
             let after = qo.requests.get(&u).and_then(|r| r.iter().find(|x| x.0 == id)).map(|x| x.1).unwrap_or(0);
-            if after as i128 - before as i128 != credited as i128 {
-                cx.viol("C05.unbond_credit", "unbonded_amount attribute differs from the recorded claim", format!("{}: attr {} recorded {} -> {}", a.label, credited, before, after));
+            let credited = after.saturating_sub(before);
+            if let Some(attr) = fx_attr(out.fx(), HUB, "unbonded_amount").and_then(|s| s.parse::<u128>().ok()) {
+                if attr != credited {
+                    cx.viol("C05.unbond_credit", "unbonded_amount attribute differs from the recorded claim", format!("{}: attr {} recorded {} -> {}", a.label, attr, before, after));
+                }
             }
             triple = Some((amt, credited, amt));
         } else if hookname == "convert" && tok == STSEI {
